@@ -372,6 +372,15 @@ def verify_function(world, con, variant=None, budget=None, max_paths=4000):
     # implicit safety obligations: every partial operation met on some path
     explicit = {o.name for o in runner.obligations.values()}
     res.obligations = list(runner.obligations.values())
+    if res.error and res.error.startswith('unsupported') and not os.environ.get('PYVC_NO_FALLBACK'):
+        # the function is outside the engine's subset (typically after an edit): bounded stand-in on the real code
+        try:
+            from . import fallback
+            extra, note = fallback.run(world, con, variant, fi)
+            res.obligations.extend(extra)
+            res.error += ' | ' + note
+        except Exception as e:
+            res.error += f' | bounded fallback failed: {type(e).__name__}: {e}'
     for site, st in sorted(safe_all.items()):
         if site not in explicit and st == 'ok':
             res.obligations.append(Obligation(site, 'safe', 'discharged', 0.0, 'z3(path-feasibility)'))
